@@ -235,8 +235,8 @@ def main() -> int:  # noqa: C901, PLR0912, PLR0915
     sys.path.insert(0, ROOT)
     global _MOD  # noqa: PLW0603
     from simkit import seams
-    mod = _MOD = importlib.import_module(MODULES[prop])
     seams.install()
+    mod = _MOD = importlib.import_module(MODULES[prop])
     if args.replay:
         return replay_main(mod, args.replay)
 
@@ -249,7 +249,7 @@ def main() -> int:  # noqa: C901, PLR0912, PLR0915
     known = load_known(prop)
     print(f"[{prop}] tier={tier} seed={args.seed} workers={args.workers} budget={budget}s repo={_repo_head()[:10]}", flush=True)
 
-    agg = {"digests": {} if args.dump_digests else None, "evaluations": 0, "sim_s": 0.0, "steps": 0, "faults": {}, "probes": {}, "sigs": set(), "nt": set(),
+    agg = {"digests": {} if args.dump_digests else None, "cases": 0, "evaluations": 0, "sim_s": 0.0, "steps": 0, "faults": {}, "probes": {}, "sigs": set(), "nt": set(),
            "errors": [], "samples": [], "viol": {}, "case_wall": 0.0}
     exhausted = False
     ctx = multiprocessing.get_context("fork")
@@ -258,7 +258,7 @@ def main() -> int:  # noqa: C901, PLR0912, PLR0915
         stop_submit = False
         while True:
             while not stop_submit and len(inflight) < args.workers * 2:
-                if PERF() - t0 > budget or (args.max_cases and agg["evaluations"] + len(inflight) * chunk_n >= args.max_cases):
+                if PERF() - t0 > budget or (args.max_cases and agg["cases"] + len(inflight) * chunk_n >= args.max_cases):
                     stop_submit = True
                     break
                 chunk = list(itertools.islice(gen, chunk_n))
@@ -278,7 +278,8 @@ def main() -> int:  # noqa: C901, PLR0912, PLR0915
                     continue
                 for case, res in results:
                     _absorb(agg, case, res)
-            if len(agg["viol"]) >= 12 or len(agg["errors"]) >= 5:
+            if len(agg["viol"]) >= 12 or len(agg["errors"]) >= 5 or (
+                    agg["viol"] and any(k not in known for k in agg["viol"]) and PERF() - t0 > budget * 0.5):
                 stop_submit = True
     search_wall = PERF() - t0
 
@@ -286,7 +287,13 @@ def main() -> int:  # noqa: C901, PLR0912, PLR0915
     rc = 0
     reported = []
     known_seen = []
+    max_full = 6
     for key, (case, res, count) in sorted(agg["viol"].items()):
+        if key not in known and len(reported) >= max_full:
+            # enough fully minimised reports; the remaining distinct classes are listed without a replay file
+            v = next(v for v in res["violations"] if v["key"] == key)
+            print(f"ALSO-VIOLATED property={prop} key={key} cases={count}: {v.get('msg', '')[:200]}", flush=True)
+            continue
         if key in known:
             known_seen.append(key)
             print(f"KNOWN-FINDING: property={prop} {key}: {known[key].get('what', '')} (seen in {count} cases)", flush=True)
@@ -329,6 +336,7 @@ def _absorb(agg: dict, case: dict, res: dict) -> None:
     if agg["digests"] is not None:
         agg["digests"][case_id(case)] = res.get("digest") or res.get("error")
     agg["evaluations"] += res.get("evaluations", 1)
+    agg["cases"] += 1
     agg["case_wall"] += res.get("wall", 0.0)
     if "error" in res:
         e = dict(res)
@@ -361,6 +369,7 @@ def _write_evidence(mod, prop, tier, args, agg, wall, search_wall, exhausted, re
     runs_per_hour = agg["evaluations"] / search_wall * 3600 if search_wall > 0 else 0
     cov = {
         "evaluations": agg["evaluations"],
+        "cases_executed": agg["cases"],
         "distinct_nontrivial": len(agg["nt"]),
         "rule": mod.RULE,
         "samples": agg["samples"] or [{"note": "no sample recorded"}],
